@@ -29,7 +29,8 @@ Qed.
 
 Lemma dec_uuid_np v : is_panic (dec_uuid v) = false.
 Proof.
-  unfold dec_uuid. apply rbind_np; [apply dec_strings_np|]. intros l _.
+  unfold dec_uuid. pose proof (dec_strings_np v) as H.
+  destruct (dec_strings v) as [l| |]; [|reflexivity|discriminate].
   destruct l as [|a [|b [|c r]]]; cbn; reflexivity.
 Qed.
 
